@@ -216,6 +216,23 @@ class Recorder:
             self.by_backend["trivial"] += 1
             self.instances.append(inst)
             return
+        # zeroth attempt: cone of influence -- only the assumptions that share symbols (transitively)
+        # with the claim; drops e.g. the polynomial facts about affine coefficients from a claim about
+        # integer pixel ranges
+        rel, n_rel = c.relevant(t)
+        if n_rel < len(c.pc):
+            s1 = z3.Solver()
+            s1.set("timeout", 8000)
+            for a_ in rel:
+                s1.add(a_)
+            s1.add(z3.Not(t))
+            c.n_solver_calls += 1
+            if s1.check() == z3.unsat:
+                inst.update(status="discharged", backend="z3", time=round(time.time() - t0, 4), sliced=f"{n_rel}/{len(c.pc)}")
+                self.by_backend["z3"] += 1
+                self.solver_time += time.time() - t0
+                self.instances.append(inst)
+                return
         # first attempt: only the quantifier-free part of the path condition (fewer assumptions:
         # `unsat` there is `unsat` everywhere) -- keeps cheap obligations cheap on quantifier-heavy paths
         if any(c.pc_quant) and not sym.has_quant(t):
